@@ -29,7 +29,7 @@ def run(prog, rep):
     jobs = [("inflow", c) for c in SC.dsm_configs(rep.tier)]
     jobs += [("stockdriven", dict(c, both_generic=True)) for c in SC.dsm_configs(rep.tier) if c["n_pts"] == 1 and c["n_t"] <= 4]
     jobs += [("simple", c) for c in SC.simple_configs(rep.tier)]
-    jobs += [("stockdriven", c) for c in SC.int_driver_configs(rep.tier)]
+    jobs += [("stockdriven", c) for c in SC.int_driver_configs(rep.tier) + SC.layout_configs(rep.tier)]
     run_stock_property(prog, rep, "C16", jobs, {"linear": "C16.linear", "causal": "C16.causal", "label-separate": "C16.label-separate",
                                                 "shift-invariant": "C16.shift-invariant", "impulse": "C16.impulse-response"})
     rep.rules["C16.linear"]["floor"] = 100
